@@ -1226,6 +1226,8 @@ def struct_fields(repo, fname=os.path.join("src", "object", "mod.rs")):
 # ---------------------------------------------------------------------------
 # the list model and the exploration of histories
 
+ITER_LOOKUPS = ("get_mapped_entries", "get_mapped", "get_mapped_entries_with_index", "get_mapped_with_index")
+UNIQUE_LOOKUPS = ("get_unique_mapped_entry", "get_unique_mapped", "get_unique_mapped_entry_with_index", "get_unique_mapped_with_index")
 OPS = ["push", "push_front", "remove_at", "insert", "insert_front", "remove", "remove_unique", "sort", "canon"]
 
 
@@ -1792,7 +1794,7 @@ class Explorer:
 		t0 = time.time()
 		prog = self.prog
 		fns = {}
-		for name in ("get_mapped_entries", "get_mapped", "iter_mapped"):
+		for name in ITER_LOOKUPS + UNIQUE_LOOKUPS + ("iter_mapped",):
 			for f in prog.fns:
 				if re.match(r"^object::<impl at src/object/mod\.rs:[0-9: ]+>::%s\(_1: &Object" % name, f.header):
 					fns[name] = f
@@ -1835,7 +1837,24 @@ class Explorer:
 				q = s.aux["nk"]
 				while len(self.keys.vars) <= q:
 					self.keys.fresh()
-				for which in ("get_mapped_entries", "get_mapped", "iter_mapped"):
+				def deref(s_, r):
+					while isinstance(r, Ref):
+						r = self.models.rd(self.ip, s_, r)
+					return r
+
+				def item_ok(s_, which, m_, p_):
+					"""the yielded item is entry p_ of the object (content AND offsets)"""
+					if "with_index" in which:
+						if not (isinstance(m_, Agg) and m_.ty == "tuple" and m_.fields[0] == p_):
+							return False
+						m_ = m_.fields[1]
+					if "entr" in which or which == "iter_mapped":
+						off, ent = m_.fields
+						return prove_eq(off, E[p_]) and prove_eq(ent.fields[0].fields[0], E[p_] + 1) and prove_eq(ent.fields[1].fields[0], E[p_] + 2) and \
+						       deref(s_, ent.fields[1].fields[1]) == model[p_][1] and key_of(deref(s_, ent.fields[0].fields[1])) == model[p_][0]
+					return prove_eq(m_.fields[0], E[p_] + 2) and deref(s_, m_.fields[1]) == model[p_][1]
+
+				for which in ITER_LOOKUPS + ("iter_mapped",):
 					s0 = s.fork()
 					s0.aux["nk"] = q + 1
 					s0.frames[0].locals[2] = ("key", q)
@@ -1846,7 +1865,6 @@ class Explorer:
 						for s2, ps in (self.positions(s1, model, q) if which != "iter_mapped" else [(s1, list(range(n)))]):
 							s2.frames[0].locals[3] = it
 							cur = [s2]
-							okay = True
 							for step_i in range(len(ps) + 1):
 								nxt = []
 								for s3 in cur:
@@ -1867,16 +1885,29 @@ class Explorer:
 											self.violation(s4, [[which, [model, "query k%d" % q]]], "C11:mapped-lookup-yields-every-matching-entry", "ended after %d of %d" % (step_i, len(ps)))
 											continue
 										m_ = r.fields[0]
-										if which in ("get_mapped_entries", "iter_mapped"):
-											off, ent = m_.fields
-											good = prove_eq(off, E[p_]) and prove_eq(ent.fields[0].fields[0], E[p_] + 1) and prove_eq(ent.fields[1].fields[0], E[p_] + 2)
-										else:
-											good = prove_eq(m_.fields[0], E[p_] + 2)
-										if not good:
+										if not item_ok(s4, which, m_, p_):
 											self.violation(s4, [[which, [model, "query k%d" % q]]], "C11:mapped-lookup-entry-offset", "match %d (entry %d): yielded %r" % (step_i, p_, m_))
 										else:
 											nxt.append(s4)
 								cur = nxt
+				# the unique variants: Ok(None) / Ok(Some(first match)) / Err(Duplicate(first, second))
+				for which in UNIQUE_LOOKUPS:
+					s0 = s.fork()
+					s0.aux["nk"] = q + 1
+					s0.frames[0].locals[2] = ("key", q)
+					s0.frames[0].locals[9] = ("codemap",)
+					for s1, r in self.call(s0, fns[which], [Ref(0, 1, ()), Ref(0, 9, ()), base, Ref(0, 2, ())]):
+						for s2, ps in self.positions(s1, model, q):
+							self.pairs += 1
+							if not ps:
+								good = r.variant == "Ok" and r.fields[0].variant == "None"
+							elif len(ps) == 1:
+								good = r.variant == "Ok" and r.fields[0].variant == "Some" and item_ok(s2, which, r.fields[0].fields[0], ps[0])
+							else:
+								d_ = r.fields[0] if r.variant == "Err" else None
+								good = d_ is not None and item_ok(s2, which, d_.fields[0], ps[0]) and item_ok(s2, which, d_.fields[1], ps[1])
+							if not good:
+								self.violation(s2, [[which, [model, "query k%d" % q]]], "C11:unique-mapped-lookup-result", "%d matching entr(ies) %r: returned %r" % (len(ps), ps, r))
 			if budget and time.time() - t0 > budget:
 				return
 
@@ -2439,8 +2470,14 @@ def replay_mapped(native, model, qkey, keyvals):
 		E.append(at)
 		at += 2 + 2
 	ps = [i for i, (k, _) in enumerate(model) if name(k) == q]
-	want = "E %s V %s I %s" % (";".join("%d.%d.%d" % (E[i], E[i] + 1, E[i] + 2) for i in ps), ";".join("%d" % (E[i] + 2) for i in ps),
-	                           ";".join("%d.%d.%d" % (e, e + 1, e + 2) for e in E))
+	def uniq(f):
+		return "none" if not ps else ("one:" + f(ps[0]) if len(ps) == 1 else "dup:%s+%s" % (f(ps[0]), f(ps[1])))
+
+	want = "E %s V %s I %s W %s X %s U %s %s %s %s" % (
+		";".join("%d.%d.%d" % (E[i], E[i] + 1, E[i] + 2) for i in ps), ";".join("%d" % (E[i] + 2) for i in ps),
+		";".join("%d.%d.%d" % (e, e + 1, e + 2) for e in E),
+		";".join("%d@%d.%d.%d" % (i, E[i], E[i] + 1, E[i] + 2) for i in ps), ";".join("%d@%d" % (i, E[i] + 2) for i in ps),
+		uniq(lambda i: "%d" % E[i]), uniq(lambda i: "%d" % (E[i] + 2)), uniq(lambda i: "%d@%d" % (i, E[i])), uniq(lambda i: "%d@%d" % (i, E[i] + 2)))
 	return dict(object=spec, query=q, got=got, want=want, reproduced=(got != want))
 
 
